@@ -570,6 +570,11 @@ async def coap_history(ctx, history: str, key) -> None:
                             # zeroed counter is not the known finding (whose zero guess decrypts the replayed first answer)
                             f["kind"] += "-after-failed-resynchronisation"
                             return None
+                        if not (fact["send_after"] == 0 and fact["recv_after"] == 1):
+                            # the known mechanism is the last-resort guess "both counters are zero" that DECRYPTS (send counter 0,
+                            # receive counter 0 -> 1); a send counter pulled back to anything else is something new
+                            f["kind"] += "-after-send-counter-moved-back"
+                            return None
                         return "coap-zero-reset-send-nonce-reuse"
                 return None
             return None
